@@ -67,6 +67,7 @@ def run(prop: str, tier: str) -> int:
         import logging
         logging.disable(logging.CRITICAL)
         from . import rig
+        from netqasm.sdk.build_types import NVHardwareConfig
         from netqasm.sdk.qubit import Qubit
         dtol = inspect.signature(get_angle_spec_from_float).parameters["tol"].default
         sdk_angles = [a for a in angles(tier, random.Random(C.seed() * 17 + 3))][: (300 if tier == "quick" else 3000)]
@@ -75,7 +76,9 @@ def run(prop: str, tier: str) -> int:
         for j, a in enumerate(sdk_angles):
             axis = ("rot_X", "rot_Y", "rot_Z")[j % 3]
             try:
-                conn = rig.VConnection("alice", max_qubits=2)
+                # generic hardware, and the NV hardware configuration (simulation: no restriction to multiples of pi/16)
+                nvcfg = j % 4 == 3
+                conn = rig.VConnection("alice", max_qubits=2, **({"hardware_config": NVHardwareConfig(2)} if nvcfg else {}))
                 q = Qubit(conn)
                 getattr(q, axis)(angle=a)
                 conn.flush()
@@ -85,7 +88,7 @@ def run(prop: str, tier: str) -> int:
                 continue
             nsdk += 1
             row = case(len(rows) + 1, prop, a, dtol, steps)
-            row["via"] = axis
+            row["via"] = axis + ("/nv-config" if nvcfg else "")
             rows.append(row)
         res = C.run_tlc_sharded("AngleTrace", rows, tmp, shards=C.ncpu())
         bad = {}
